@@ -32,7 +32,7 @@ Definition fits (dt : option dtype) (s : vshape) : Prop :=
   match dt with
   | Some d =>
       match dkind d with
-      | KFloat => match s with VFloat _ | VIntLike => True | _ => False end
+      | KFloat => match s with VFloat _ | VIntLike _ => True | _ => False end
       | KDate => match s with VDateLike => True | _ => False end
       | _ => True
       end
@@ -41,13 +41,13 @@ Definition fits (dt : option dtype) (s : vshape) : Prop :=
 Definition well_typed_vec (v : vec) : Prop :=
   forall s, In (Some s) (vdata v) -> fits (vdtype v) s.
 
-(* no element is itself a serif Vector *)
-Definition no_vector_elements (v : vec) : Prop := ~ In (Some VVector) (vdata v).
-(* no element is equal to the string '...' *)
-Definition no_dots_elements (v : vec) : Prop := ~ In (Some (VStr true)) (vdata v).
-(* the stored name is not the string '...' *)
-Definition name_not_dots (v : vec) : Prop :=
-  forall o, vname v = Some o -> n_text_dots o = false.
+(* the one input on which the formatter is still partial: an int element of a FLOAT column that
+   is beyond the float range (Vector([1.5, 10**400]) is a legal <float> vector; f"{v:.1f}"
+   converts the int with float(v), which raises OverflowError).  [float_ints_in_range] excludes it. *)
+Definition float_column (dt : option dtype) : bool :=
+  match dt with Some d => kind_eqb (dkind d) KFloat | None => false end.
+Definition float_ints_in_range (v : vec) : Prop :=
+  float_column (vdtype v) = true -> ~ In (Some (VIntLike true)) (vdata v).
 (* a column has a name to show: not None and not text-empty *)
 Definition has_shown_name (v : vec) : Prop :=
   exists o, vname v = Some o /\ n_text_empty o = false.
